@@ -27,6 +27,7 @@ type simEvent struct {
 	A   int    `json:"a,omitempty"`   // small integer argument
 	S   string `json:"s,omitempty"`   // string argument (operation name)
 	Dev int    `json:"dev,omitempty"` // deviation cost of this event
+	In  *simEvent `json:"in,omitempty"` // KA: the event during which node N dies at its A-th storage point
 }
 
 func (e simEvent) String() string {
@@ -45,6 +46,9 @@ func (e simEvent) String() string {
 	}
 	if e.S != "" {
 		s += " " + e.S
+	}
+	if e.In != nil {
+		s += " during " + e.In.String()
 	}
 	return s + ")"
 }
@@ -148,14 +152,19 @@ func (w *world) enabled(m *simMenu, cnt simCounters) []simEvent {
 					add(simEvent{K: "X", N: c.cli, C: c.key(), A: 1, Dev: 1})
 				}
 			}
-		} else if w.opt.Disconnects && identNid != 0 && !disc && srv.up {
-			add(simEvent{K: "DC", N: c.srv, C: c.key()})
+		} else {
+			// data sent before the sender went away still arrives
+			if p := c.peekRequest(); p != nil && p.complete && srv.up && p.typ != rpcIdentity {
+				add(simEvent{K: "D", N: c.srv, C: c.key()})
+			} else if w.opt.Disconnects && identNid != 0 && !disc && srv.up {
+				add(simEvent{K: "DC", N: c.srv, C: c.key()})
+			}
 		}
 	}
 
 	for _, n := range w.nodes {
 		if !n.up {
-			if m.Crashes && n.r != nil {
+			if m.Crashes && n.r != nil && !n.dead {
 				add(simEvent{K: "S", N: n.idx}) // restart
 			}
 			continue
@@ -285,8 +294,15 @@ var errSimHarness = errors.New("sim: harness error")
 func (w *world) apply(e simEvent) (err error) {
 	w.clock++
 	w.logf("%d: %v", w.clock, e)
+	for _, n := range w.nodes {
+		n.points = n.points[:0]
+	}
 	w.led.beforeEvent(e)
-	err = w.applyInner(e)
+	if e.K == "KA" {
+		err = w.crashAt(e)
+	} else {
+		err = w.applyInner(e)
+	}
 	if err == nil {
 		err = w.settle()
 	}
@@ -441,6 +457,90 @@ func (w *world) applyInner(e simEvent) error {
 		return nil
 	}
 	return fmt.Errorf("%w: unknown event %v", errSimHarness, e)
+}
+
+// crashAt executes e.In while node e.N is a "ghost": a copy of its directory
+// is taken at its e.A-th storage point; everything the node sends or answers
+// during the transition is discarded (the process died at that point, so none
+// of it left the machine), the node then stops and its directory is replaced
+// by the copy.
+func (w *world) crashAt(e simEvent) error {
+	n := w.nodes[e.N]
+	if e.In == nil || !n.up {
+		return fmt.Errorf("%w: bad KA event", errSimHarness)
+	}
+	type lens struct{ c2s, s2c, held int }
+	pre := map[*simConn]lens{}
+	w.mu.Lock()
+	for _, c := range w.conns {
+		pre[c] = lens{c.c2s.Len() + c.srvConn.bufr.Buffered(), c.s2c.Len(), c.held.Len()}
+	}
+	w.ghost = n.idx
+	w.mu.Unlock()
+	w.led.ghost = n.idx
+	ntasks := len(w.tasks)
+	pendingBefore := map[*simTask]bool{}
+	for _, st := range w.tasks {
+		if st.ret < 0 {
+			pendingBefore[st] = true
+		}
+	}
+	n.imageAt, n.image = e.A, ""
+	err := w.applyInner(*e.In)
+	if err == nil {
+		err = w.settle()
+	}
+	n.imageAt = -1
+	w.led.ghost = -1
+	w.mu.Lock()
+	w.ghost = -1
+	// discard the node's network output of this transition
+	for _, c := range w.conns {
+		l, existed := pre[c]
+		if c.cli == n.idx {
+			if !existed {
+				c.c2s.Reset()
+				c.closeLocked()
+				c.discSent = true
+			} else if cur := c.c2s.Len() + c.srvConn.bufr.Buffered(); cur > l.c2s && c.srvConn.bufr.Buffered() <= l.c2s {
+				c.c2s.Truncate(l.c2s - c.srvConn.bufr.Buffered())
+			}
+		}
+		if c.srv == n.idx {
+			if !existed {
+				l = lens{}
+			}
+			if c.s2c.Len() > l.s2c {
+				c.s2c.Truncate(l.s2c)
+			}
+			if c.held.Len() > l.held {
+				c.held.Truncate(l.held)
+			}
+		}
+	}
+	w.mu.Unlock()
+	if err != nil {
+		return err
+	}
+	// task replies produced by the dying node never reached the client
+	simTaskMu.Lock()
+	for i, st := range w.tasks {
+		if st.node == n.idx && (i >= ntasks || pendingBefore[st]) {
+			st.ghost = true
+		}
+	}
+	simTaskMu.Unlock()
+	img := n.image
+	n.image = ""
+	if img == "" {
+		return fmt.Errorf("%w: node %d passed only %d storage points in %v", errSimHarness, n.id, len(n.points), *e.In)
+	}
+	if !n.up {
+		n.dir = img
+		w.led.onCrash(n)
+		return nil
+	}
+	return w.crash(n, img)
 }
 
 func simSendTask(r *Raft, t Task) error {
